@@ -50,6 +50,8 @@ func clusterObj(name string, a, b int, both bool) *proxyv1alpha1.UpstreamCluster
 		rest.UpstreamSubset = []string{pool.Upstreams[b].URL}
 	}
 	c.Spec.DispatchPolicies = []proxyv1alpha1.DispatchPolicy{pods, rest}
+	// every cluster is also reachable under an alias host name
+	c.Spec.SecureServing.ServerNames = []string{name + "-alias.example.com"}
 	return c
 }
 
@@ -145,7 +147,7 @@ func quick(g *gwbox.Gateway, host, path string) (int, int) {
 }
 
 func TestPropRemovalCutsInflight(t *testing.T) {
-	sub := stats.NewSub("removal-timing", "rapid: what is removed (cluster c1 / the first endpoint of c1), when relative to a target request on that endpoint (before it is sent / while the stub delays its headers / after j = 1..5 streamed chunks), 0-3 bystanders (streams or held requests on the other endpoint of c1 and on cluster c2); oracle: the target ends at the client and its context dies at the stub within 2 s of the removal; the removed endpoint (optionally disabled and re-enabled before; optionally disabled - drained - while the target is in flight and still disabled when removed) receives no health probe later than 300 ms after the removal (probe period shortened to 20 ms by the verif hook); afterwards requests to the deleted cluster get 503 and nothing is forwarded, the removed endpoint is never picked again; bystander streams keep delivering chunks for 300 ms and finish normally when released, held bystander requests return 200; non-trivial = the removal happens while the target is connecting or streaming and there is >= 1 bystander; distinct by FNV-64 of the plan")
+	sub := stats.NewSub("removal-timing", "rapid: what is removed (cluster c1 / the first endpoint of c1), when relative to a target request on that endpoint (before it is sent / while the stub delays its headers / after j = 1..5 streamed chunks), 0-3 bystanders (streams or held requests on the other endpoint of c1 and on cluster c2); oracle: the target ends at the client and its context dies at the stub within 2 s of the removal; the removed endpoint (optionally disabled and re-enabled before; optionally disabled - drained - while the target is in flight and still disabled when removed) receives no health probe later than 300 ms after the removal (probe period shortened to 20 ms by the verif hook); afterwards requests to the deleted cluster - by its name and by its alias server name - get 503 and nothing is forwarded, the removed endpoint is never picked again; bystander streams keep delivering chunks for 300 ms and finish normally when released, held bystander requests return 200; non-trivial = the removal happens while the target is connecting or streaming and there is >= 1 bystander; distinct by FNV-64 of the plan")
 	stats.Check(t, stats.N(20, 150), func(t *rapid.T) {
 		what := rapid.SampledFrom([]string{"cluster", "endpoint"}).Draw(t, "remove")
 		when := rapid.SampledFrom([]string{"before", "connecting", "streaming", "streaming"}).Draw(t, "when")
@@ -153,6 +155,7 @@ func TestPropRemovalCutsInflight(t *testing.T) {
 		nBy := rapid.IntRange(0, 3).Draw(t, "bystanders")
 		flap := rapid.Bool().Draw(t, "disableEnableBeforeRemoval")
 		drained := rapid.Bool().Draw(t, "disabledWhenRemoved") // the usual drain procedure: disable first, remove later
+		targetHost := rapid.SampledFrom([]string{"c1", "c1-alias.example.com"}).Draw(t, "targetHost")
 		type by struct {
 			host, path string
 			streaming  bool
@@ -230,7 +233,7 @@ func TestPropRemovalCutsInflight(t *testing.T) {
 		}
 		var target *stream
 		if when != "before" {
-			target = startStream(g, "c1", "/api/v1/namespaces/default/pods", when == "streaming")
+			target = startStream(g, targetHost, "/api/v1/namespaces/default/pods", when == "streaming")
 			streams = append(streams, target)
 		}
 		// wait until everything is in the intended state
@@ -323,10 +326,12 @@ func TestPropRemovalCutsInflight(t *testing.T) {
 		}
 		// ---- new requests
 		if what == "cluster" {
-			for _, p := range []string{"/api/v1/namespaces/default/pods", "/healthz/x"} {
-				st, up := quick(g, "c1", p)
-				if st != 503 || up >= 0 {
-					t.Fatalf("request to the deleted cluster answered %d (forwarded to upstream %d), expected 503 and nothing forwarded\nplan: %s", st, up, plan)
+			for _, host := range []string{"c1", "c1-alias.example.com", "C1-Alias.Example.com:6443"} {
+				for _, p := range []string{"/api/v1/namespaces/default/pods", "/healthz/x"} {
+					st, up := quick(g, host, p)
+					if st != 503 || up >= 0 {
+						t.Fatalf("request for host %s of the deleted cluster answered %d (forwarded to upstream %d), expected 503 and nothing forwarded\nplan: %s", host, st, up, plan)
+					}
 				}
 			}
 		} else {
